@@ -33,46 +33,47 @@ where
     | [], acc => if acc.isEmpty then [] else [acc.reverse]
     | b :: rest, acc => if b == 10 then stripCr acc :: go rest [] else go rest (b :: acc)
 
-/-- ASCII members of Unicode `White_Space`: U+0009..U+000D and U+0020 -/
-def isAsciiWs (b : UInt8) : Bool := (9 ≤ b && b ≤ 13) || b == 32
+/-- the `White_Space` characters git's `isspace` knows too: SP, HT, LF, CR -/
+def gitSpaces : List Bytes := [[32], [9], [10], [13]]
 
-/-- `trim_start`: drop the longest prefix of `White_Space` characters (UTF-8 encoded):
-U+0009..000D, 0020, 0085, 00A0, 1680, 2000..200A, 2028, 2029, 202F, 205F, 3000. -/
+/-- the other `White_Space` characters, UTF-8 encoded: U+000B, 000C, 0085, 00A0, 1680,
+2000..200A, 2028, 2029, 202F, 205F, 3000 -/
+def exoticWs : List Bytes :=
+  [[0x0B], [0x0C], [0xC2, 0x85], [0xC2, 0xA0], [0xE1, 0x9A, 0x80],
+   [0xE2, 0x80, 0x80], [0xE2, 0x80, 0x81], [0xE2, 0x80, 0x82], [0xE2, 0x80, 0x83], [0xE2, 0x80, 0x84],
+   [0xE2, 0x80, 0x85], [0xE2, 0x80, 0x86], [0xE2, 0x80, 0x87], [0xE2, 0x80, 0x88], [0xE2, 0x80, 0x89],
+   [0xE2, 0x80, 0x8A], [0xE2, 0x80, 0xA8], [0xE2, 0x80, 0xA9], [0xE2, 0x80, 0xAF], [0xE2, 0x81, 0x9F],
+   [0xE3, 0x80, 0x80]]
+
+def wsPatterns : List Bytes := gitSpaces ++ exoticWs
+
+/-- length of the `White_Space` character at the head (no encoding is a prefix of another), 0 if none -/
+def wsLenFwd (s : Bytes) : Nat :=
+  match wsPatterns.find? (fun p => p.isPrefixOf s) with
+  | some p => p.length
+  | none => 0
+
+/-- the same reading backwards: `s` is the reversed string -/
+def wsLenRev (s : Bytes) : Nat :=
+  match wsPatterns.find? (fun p => p.reverse.isPrefixOf s) with
+  | some p => p.length
+  | none => 0
+
+/-- `trim_start`: drop the longest prefix of `White_Space` characters -/
 def trimStartFuel : Nat → Bytes → Bytes
-  | 0, bs => bs
-  | fuel + 1, bs =>
-    match bs with
-    | [] => []
-    | b :: rest =>
-      if isAsciiWs b then trimStartFuel fuel rest
-      else match b, rest with
-        | 0xC2, c :: r => if c == 0x85 || c == 0xA0 then trimStartFuel fuel r else bs
-        | 0xE1, 0x9A :: 0x80 :: r => trimStartFuel fuel r
-        | 0xE2, 0x80 :: c :: r =>
-          if (0x80 ≤ c && c ≤ 0x8A) || c == 0xA8 || c == 0xA9 || c == 0xAF then trimStartFuel fuel r else bs
-        | 0xE2, 0x81 :: 0x9F :: r => trimStartFuel fuel r
-        | 0xE3, 0x80 :: 0x80 :: r => trimStartFuel fuel r
-        | _, _ => bs
+  | 0, s => s
+  | fuel + 1, s =>
+    let n := wsLenFwd s
+    if n == 0 then s else trimStartFuel fuel (s.drop n)
 
 def trimStart (bs : Bytes) : Bytes := trimStartFuel bs.length bs
 
 /-- the same on the reversed string (`trim_end` runs the reverse automaton from the end) -/
 def trimRevFuel : Nat → Bytes → Bytes
-  | 0, bs => bs
-  | fuel + 1, bs =>
-    match bs with
-    | [] => []
-    | b :: rest =>
-      if isAsciiWs b then trimRevFuel fuel rest
-      else match b, rest with
-        | 0x85, 0xC2 :: r => trimRevFuel fuel r
-        | 0xA0, 0xC2 :: r => trimRevFuel fuel r
-        | 0x80, 0x9A :: 0xE1 :: r => trimRevFuel fuel r
-        | 0x9F, 0x81 :: 0xE2 :: r => trimRevFuel fuel r
-        | 0x80, 0x80 :: 0xE3 :: r => trimRevFuel fuel r
-        | c, 0x80 :: 0xE2 :: r =>
-          if (0x80 ≤ c && c ≤ 0x8A) || c == 0xA8 || c == 0xA9 || c == 0xAF then trimRevFuel fuel r else bs
-        | _, _ => bs
+  | 0, s => s
+  | fuel + 1, s =>
+    let n := wsLenRev s
+    if n == 0 then s else trimRevFuel fuel (s.drop n)
 
 def trimEnd (bs : Bytes) : Bytes := (trimRevFuel bs.length bs.reverse).reverse
 
@@ -139,6 +140,16 @@ def parseNameAndEmail (line : Bytes) : Option (Option Bytes × Option Bytes × B
         let name := trim (line.take start)
         some (if name.isEmpty then none else some name, some em, line.drop (start + closing + 2))
 
+/-- the `match (name1, email1, name2, email2)` of `parse_line`; `none` = `Err(Malformed)` -/
+def mkEntry (name1 email1 name2 email2 : Option Bytes) : Option Entry :=
+  match name1, email1, name2, email2 with
+  | some pn, some ce, none, none => some { newName := some pn, newEmail := none, oldName := none, oldEmail := ce }
+  | none, some pe, none, some ce => some { newName := none, newEmail := some pe, oldName := none, oldEmail := ce }
+  | some pn, some pe, none, some ce => some { newName := some pn, newEmail := some pe, oldName := none, oldEmail := ce }
+  | some pn, some pe, some cn, some ce => some { newName := some pn, newEmail := some pe, oldName := some cn, oldEmail := ce }
+  | none, some pe, some cn, some ce => some { newName := none, newEmail := some pe, oldName := some cn, oldEmail := ce }
+  | _, _, _, _ => none
+
 /-- `parse_line`: `none` = `Err` (either kind) -/
 def parseLine (line : Bytes) : Option Entry :=
   match parseNameAndEmail line with
@@ -148,13 +159,7 @@ def parseLine (line : Bytes) : Option Entry :=
     | none => none
     | some (name2, email2, rest2) =>
       if !(trim rest2).isEmpty then none              -- UnconsumedInput
-      else match name1, email1, name2, email2 with
-        | some pn, some ce, none, none => some { newName := some pn, newEmail := none, oldName := none, oldEmail := ce }
-        | none, some pe, none, some ce => some { newName := none, newEmail := some pe, oldName := none, oldEmail := ce }
-        | some pn, some pe, none, some ce => some { newName := some pn, newEmail := some pe, oldName := none, oldEmail := ce }
-        | some pn, some pe, some cn, some ce => some { newName := some pn, newEmail := some pe, oldName := some cn, oldEmail := ce }
-        | none, some pe, some cn, some ce => some { newName := none, newEmail := some pe, oldName := some cn, oldEmail := ce }
-        | _, _, _, _ => none                          -- Malformed
+      else mkEntry name1 email1 name2 email2
 
 inductive LineRes
   | skipped                 -- comment or blank: the iterator does not yield an item
